@@ -101,6 +101,45 @@ CHECKS = {
         note="Coq kernel; extraction/driver; harness; json module round trip; no axioms",
         technique="Coq proof (round-trip through a name-keyed table, sorting lemmas) + differential correspondence",
         design="4 C08"),
+    "C06": dict(
+        text=("Theorems over the Gallina transcription of afm_writer / afm_reader around the external ANTLR parser: for every "
+              "model of the AFM fragment the reader applied to the writer's syntax tree returns the normal form [afm_norm m] "
+              "with correct back pointers (the by-name lookup of parents line by line is proved correct under unique names); the "
+              "normal form keeps names, the multiset of relations per parent, attributes and the constraint TREES unchanged and "
+              "is a fixed point. End to end the statement holds for ANY parser that inverts the rendering on writer output — "
+              "an explicit premise, not an axiom, validated by suite P-afm against the real parser on every case."),
+        note="Coq kernel; extraction/driver; harness incl. the ANTLR-tree conversion; afmparser; premise antlr(render d)=d; no axioms",
+        technique="Coq proof (round trip on syntax trees, parser as a universally quantified function with a stated premise) + differential correspondence on bytes, parse trees and read models",
+        design="4 C06"),
+    "C12": dict(
+        text=("PARTIAL. Proved: in the model every writer is a function of the model value, so a writer step leaves the model "
+              "unchanged, returns what it writes and is idempotent; the propositional export's meaning is independent of the order "
+              "of its formulas. Observed, not proved (suite H decides this check): byte-identical output of all eight writers across "
+              "fresh processes, hash seeds, locales and default encodings, returned = file, UTF-8 files read back with the same "
+              "names, model dump unchanged."),
+        note="Coq kernel for the model-level statements; the environment independence is sampled (5 / 24 environments), it cannot be a theorem about a Gallina model",
+        technique="Coq proof of model-level purity + observational determinism suite across interpreter environments",
+        design="4 C12"),
+    "C17": dict(
+        text=("Theorems over the Gallina transcription of the 40 metric methods and Metrics.execute: every metric once in dir() "
+              "order, totality (40 entries) for well-formed logical constraints, size = length, ratio = Python's round(size/base, 4) "
+              "and within [0,1] for every ratio-carrying metric, the partition identities (abstract/concrete, leaf/compound, "
+              "solitary/grouped with mandatory and optional inside solitary, requires/excludes = simple, simple/complex = logical, "
+              "pseudo and strict inside complex), equality of the duplicated metrics with the stand-alone operations, filter = "
+              "sub-list of the full report, independence from earlier executions."),
+        note="Coq kernel; extraction/driver; harness; bit-exact Python round()/float division model (Base/PyFloat.v); ratio range needs constraints over feature names; no axioms",
+        technique="Coq proof over hand-written Gallina model + differential correspondence with re-used operation objects",
+        design="4 C17"),
+    "C19": dict(
+        text=("Read-only operations are Gallina functions of the model (no state to depend on, nothing to mutate) tied to the code "
+              "by sequences on re-used operation objects with pre/post dumps; proved: the metrics step ignores stored state; random "
+              "attribute generation, for EVERY oracle stream of random draws: missing domain = library error, only attribute lists "
+              "change, each targeted feature lacking the attribute gets exactly one with the given name and domain, everything else "
+              "keeps its attributes, and the value is a listed element, an integer inside a listed integer range or a decimal inside a "
+              "listed float range (given randint answers within its bounds and ordered ranges)."),
+        note="Coq kernel; extraction/driver; harness recording the random module's draws; float results as exact decimals; no axioms",
+        technique="Coq proof over an oracle-stream model + differential correspondence with recorded draws",
+        design="4 C19"),
 }
 
 NOT_YET = {
